@@ -123,6 +123,28 @@ theorem C17_model_meets_spec_local (ops : StrOps α) (maps : List (MapDict α)) 
     rw [listToLocal, localGo_meets ops maps hd allow attrs [] hany']
     exact dictEq_refl _
 
+/-- SEVERAL ATTRIBUTE STATEMENTS (`AuthnResponse.get_identity`).  The model's answer meets
+    `specIdentity`: every statement is converted as above and the identity is the union of the
+    statements' dictionaries; when two statements demand the same local name the specification is silent
+    (the model, like the code, lets the later statement replace the earlier one). -/
+theorem C17_model_meets_spec_identity (ops : StrOps α) (maps : List (MapDict α)) (allow : Bool)
+    (stmts : List (List (WireAttr α))) (hmaps : maps.all isMap = true)
+    (hd : distinctFormats (maps.map (·.identifier)) = true) :
+    specIdentity ops (maps.map (declMap ops)) allow stmts
+      (getIdentity ops (acFactory ops maps) allow stmts []) = true := by
+  rw [acFactory_eq ops maps (List.all_eq_true.mp hmaps)]
+  unfold specIdentity
+  simp only
+  split
+  · rfl
+  next hany =>
+    split
+    · rfl
+    · have hany' : (stmts.map fun st => st.map (expectLocal ops (maps.map (declMap ops)) allow)).any
+          (fun es => es.any isAny) = false := by simpa using hany
+      rw [getIdentity_meets ops maps hd allow stmts [] hany']
+      exact dictEq_refl _
+
 /-- One attribute whose name the map for its name format knows: it is stored under that map's local
     name with exactly its values, in order, white space trimmed. -/
 theorem C17_to_local (ops : StrOps α) (maps : List (MapDict α)) (allow : Bool) (a : WireAttr α)
@@ -425,6 +447,14 @@ example : distinctFormats ([demoMap].map (·.identifier)) = true ∧
 example : listToLocal natOps (acFactory natOps [demoMap]) true
       [⟨some 0x155726e3a58, some 0x167, none, some [{ text := some 0x161 }]⟩] =
       .ok [(0x155726e3a58, [.str 0x161])] := by
+  decide +kernel
+
+-- two statements with different local names are united; the same local name twice: the later one wins
+example : getIdentity natOps (acFactory natOps [demoMap]) true
+      [[⟨some 0x155726e3a58, some 0x166, none, some [{ text := some 0x1206120 }]⟩],
+       [⟨some 0x161, some 0x167, none, some [{ text := some 0x161 }]⟩],
+       [⟨some 0x155726e3a58, some 0x166, none, some [{ text := some 0x167 }]⟩]] [] =
+      .ok [(0x16d61696c, [.str 0x167]), (0x161, [.str 0x161])] := by
   decide +kernel
 
 -- the round trip of {"MAIL": [" a ", ""]} through demoMap gives {"mail": ["a", ""]}
